@@ -153,6 +153,8 @@ theorem parsePi_nf (s : Stream) (st : NSt) (hc : st.1 ≤ s.pos) :
     rintro ⟨s2, target⟩ _
     simp only
     apply nf_bind_lift _ _ _ _ (fun _ => True) (fun _ _ => trivial)
+    intro s3 _
+    apply nf_bind_lift _ _ _ _ (fun _ => True) (fun _ _ => trivial)
     rintro ⟨s4, content⟩ _
     simp only
     apply nf_bind_lift _ _ _ _ (fun _ => True) (fun _ _ => trivial)
